@@ -2,11 +2,18 @@
 
 package c12
 
-import "pgregory.net/rapid"
+import (
+	"pgregory.net/rapid"
+	"verif/busmodel"
+)
 
 func Gen(store string) func(t *rapid.T) *Case {
 	return func(t *rapid.T) *Case {
 		c := &Case{Store: store, Stream: rapid.Bool().Draw(t, "stream"), Batch: rapid.SampledFrom([]int{0, 0, 1, 2, 3}).Draw(t, "batch")}
+		if rapid.Bool().Draw(t, "ambient") {
+			c.Amb = rapid.IntRange(0, busmodel.AmbAll).Draw(t, "amb")
+		}
+		c.HonourCtx = rapid.Bool().Draw(t, "honourctx")
 		if store == "durable" {
 			c.Stream = false
 			c.Batch = 0
